@@ -6,11 +6,12 @@
 (* complete trie as a*amount + f*fee with a, f in {-1,0,1}; the trace spec *)
 (* demands the shapes the ledger specification allows:                     *)
 (*   reject  : no change at all                                            *)
-(*   error   : only the sender: -fee (nothing when the fee is zero)         *)
+(*   error   : only the payer: -fee (nothing when the fee is zero)          *)
 (*   success : the coefficients of the amount cancel, the fee leaves       *)
 (*             exactly one account once (it is collected for the producer) *)
 (* and C04: an unauthorised transaction is rejected.                       *)
-(* {"ev":"Tx","kind":..,"from":..,"auth":b,"class":..,"shape":[{who,a,f}], *)
+(* {"ev":"Tx","kind":..,"from":..,"payer":..,"auth":b,"class":..,         *)
+(*  "shape":[{who,a,f}],                                                   *)
 (*  "feepos":b,"amtpos":b,"included":b}                                    *)
 (***************************************************************************)
 EXTENDS Integers, Sequences, FiniteSets, TLC, Json
@@ -29,7 +30,7 @@ SumF(S) == IF S = {} THEN 0 ELSE LET x == CHOOSE y \in S : TRUE IN x.f + SumF(S 
 ShapeOK(e) ==
   LET S == ToSet(e.shape) IN
   CASE e.class = "reject"  -> S = {}
-    [] e.class = "error"   -> IF e.feepos THEN S = {[who |-> e.from, a |-> 0, f |-> -1]} ELSE S = {}
+    [] e.class = "error"   -> IF e.feepos THEN S = {[who |-> e.payer, a |-> 0, f |-> -1]} ELSE S = {}
     [] e.class = "success" -> /\ SumA(S) = 0
                               /\ SumF(S) = (IF e.feepos THEN -1 ELSE 0)
                               /\ \A x \in S : x.f <= 0            \* nobody is credited a fee inside a transaction
